@@ -408,6 +408,7 @@ def generate_and_run(ps: PureSys, rng: np.random.Generator, stats: Stats, tier: 
         c = run.clients[ci]
         if c.need_reset:
             return None
+        run.check_held_state(c)  # the policy reads the state the client holds: it must still be the value that was returned
         if ci == eager_only:
             # the eager-only client plays towards the end of its episode (completion-driving moves, a few wasted or
             # illegal ones in between): the terminal step and the steps around it are where Python-typed leaves matter
